@@ -587,6 +587,24 @@ func c18IO(cx *Ctx, r *ev.Report) {
 			exp.Emit(bdd.True, "warn", "logger", nil, 0, "ref")
 			return skipResult{}
 		})
+	// SetStdout installs exactly the writer it is given
+	if fn := cx.P.Method(cpmPkg, "IO", "SetStdout"); fn != nil {
+		c := dom.NewCtx()
+		in := absint.New(cx.P, c, dom.NewTrace(c))
+		in.AddSymbolicRoot("recv", "")
+		w := in.SymbolicValue(fn.Params[1].Type(), "arg1")
+		_, out, err := in.Run(fn, []absint.Value{&absint.Ptr{Root: "recv", Nil: bdd.False}, w}, absint.NewState())
+		key := "C18/io/func=IO.SetStdout"
+		rule := "CONFIG-EQ: SetStdout makes the given writer the one IO.Out writes to, unconditionally"
+		if err != nil {
+			r.Undecide(key, rule, cx.P.Pos(fn.Pos()), err.Error())
+		} else {
+			v, ok := out.Get("recv", "stdout")
+			r.Check(ok && absint.SameValue(v, w) && len(out.Keys()) == 1, key, rule, cx.P.Pos(fn.Pos()), "summary-equality", "after SetStdout the console writer is "+absint.DescribeValue(c, v))
+		}
+	} else {
+		r.Undecide("C18/io/func=IO.SetStdout", "anchor", "", "UNRESOLVED anchor: tinycpm.IO.SetStdout")
+	}
 	iw := int(cx.P.Sizes.Sizeof(types.Typ[types.Int])) * 8
 	cmp("C18/memory/func=Memory.Get", "CELL-EQ: Get returns the array cell at the unmodified address (index safe by type)", run("Memory", "Get"),
 		func(c *dom.Ctx, exp *dom.Trace) absint.Value {
